@@ -394,6 +394,28 @@ def e_colliding_defaults_derived(rng, m):
     return "defaults collide after re-normalisation in derived type"
 
 
+def e_colliding_defaults_tuple_key(rng, m):
+    # a key type whose values are not strings (inet-address gives tuples):
+    # 'Host:80' and 'host:80' are one key
+    names = [t["name"] for t in m["types"]]
+    if "coltuple" in names:
+        return None
+    kt = rng.choice(["inet-address", "inet-binding-address",
+                     "inet-connection-address"])
+    a, b = rng.choice([("Host:80", "host:80"), ("LOCALHOST:1", "localhost:1"),
+                       ("[::1]:80", "[::1]:80 ")])
+    kind = "key"
+    m["types"].append({"kind": "section", "name": "coltuple",
+                       "keytype": kt, "datatype": None,
+                       "extends": None, "implements": None, "children": [
+                           {"kind": kind, "name": "+",
+                            "attribute": "colmap", "datatype": "string",
+                            "required": False, "handler": None,
+                            "default": None,
+                            "defaults": [[a, "a"], [b, "b"]]}]})
+    return "defaults collide under a tuple-valued key type (%s)" % kt
+
+
 def e_bad_names(rng, m):
     cs, _ = conts(m)
     k = rng.choice(["typename", "keyname", "attribute", "getSection",
@@ -445,8 +467,11 @@ def e_bad_names(rng, m):
     if k == "datatype":
         if ch["kind"] not in ("key", "multikey"):
             return None
-        ch["extra_attrs"] = {"datatype": rng.choice(["nosuchdt", "in teger",
-                                                     "1x", "integer\n"])}
+        ch["extra_attrs"] = {"datatype": rng.choice([
+            "nosuchdt", "in teger", "1x", "integer\n",
+            # dotted, but no dotted name
+            "os..path", "os.", "a b.c", "os.pa th", "os.path.join.",
+            "1a.b", "os.1x", "zcverif_dt.fam.", "zcverif_dt..fam.wrap"])}
         return "unknown datatype"
     ch["extra_attrs"] = {"handler": rng.choice(["1bad", "a b", "h1\n"])}
     return "bad handler name"
@@ -644,7 +669,8 @@ EDITS = [e_empty_references, e_inside_text_element, e_more_names, e_dup_type, e_
          e_multisection_fixed, e_default_on_required, e_default_attr_on_wild,
          e_import_src_redefines,
          e_keyed_default_on_plain, e_unkeyed_default_on_wild,
-         e_colliding_defaults, e_colliding_defaults_derived, e_bad_names,
+         e_colliding_defaults, e_colliding_defaults_derived,
+         e_colliding_defaults_tuple_key, e_bad_names,
          e_bad_names, e_nesting, e_nesting, e_multikey_default_attr,
          e_import, e_missing_attr, e_section_of_schema]
 
@@ -836,11 +862,51 @@ def make_cyclic_packages(ctx):
     return space
 
 
+# datatype names that lead through objects which are not modules (a class,
+# a nested class, a function attribute), written in full or with a prefix:
+# rule-satisfying documents
+OBJECT_PATH_DOCS = [
+    '<schema><key name="a" datatype="zcverif_dt.fam.Holder.conv"/></schema>',
+    '<schema><key name="a" datatype="zcverif_dt.fam.Holder.Inner.conv"/>'
+    '</schema>',
+    '<schema><key name="a" datatype="datetime.date.fromisoformat"/></schema>',
+    '<schema prefix="zcverif_dt.fam.Holder"><key name="a" datatype=".conv"/>'
+    '<multikey name="b" datatype=".Inner.conv"/></schema>',
+    '<schema keytype="zcverif_dt.fam.Holder.lower"><key name="a"/></schema>',
+    '<schema><key name="a" datatype="os.path.normpath"/></schema>',
+    '<schema><key name="a" datatype="xml.sax.saxutils.escape"/></schema>',
+    '<schema><key name="a" datatype="logging.handlers.SysLogHandler.'
+    'facility_names.get"/></schema>',
+    '<schema><sectiontype name="s" datatype="zcverif_dt.fam.Holder.conv" '
+    'keytype="zcverif_dt.fam.Holder.lower"/>'
+    '<section type="s" name="*" attribute="s"/></schema>',
+    '<schema><sectiontype name="s" prefix="zcverif_dt.fam">'
+    '<key name="a" datatype=".Holder.Inner.conv"/></sectiontype></schema>',
+]
+
+
+def run_object_paths(ctx):
+    for i, xml in enumerate(OBJECT_PATH_DOCS):
+        if not ctx.mine(i):
+            continue
+        for way in ("string", "path"):
+            ctx.res.evaluations += 1
+            ctx.res.count("positives_object_path")
+            out = load(xml, way)
+            ctx.res.sig("object-path|%d|%s" % (i, out[0]))
+            if out[0] != "ok":
+                ctx.res.violate("rule-satisfying-document-refused",
+                                {"xml": xml, "way": way}, "loads", list(out),
+                                detail="%s | %s" % (out, xml),
+                                vsig="objpath|%s" % msg_head(out))
+
+
 def run_shard(ctx):
     LIB_DIR[0] = os.path.join(ctx.tmp, "c10lib")
     os.makedirs(LIB_DIR[0], exist_ok=True)
     space = make_cyclic_packages(ctx)
     try:
+        run_object_paths(ctx)
         _run_shard(ctx)
     finally:
         space.close()
@@ -872,6 +938,12 @@ def _run_shard_(ctx):
 def replay(ctx, case):
     LIB_DIR[0] = os.path.join(ctx.tmp, "c10lib")
     os.makedirs(LIB_DIR[0], exist_ok=True)
+    if "xml" in case:
+        out = load(case["xml"], case.get("way") or "string")
+        if out[0] != "ok":
+            ctx.res.violate("rule-satisfying-document-refused", case,
+                            "loads", list(out))
+        return
     xml = family.render_xml(case["model"])
     out = load(xml, case.get("way") or "string")
     if case["edits"]:
